@@ -1,0 +1,83 @@
+//go:build verif
+
+package router
+
+// Verification hooks for property C07 (cache key, client group marker, cache value encoding).
+// Add-only; compiled only with -tags verif.
+
+import (
+	"bytes"
+	"context"
+	"net/netip"
+
+	"github.com/IrineSistiana/mosproxy/internal/cache"
+	"github.com/IrineSistiana/mosproxy/internal/dnsmsg"
+	"github.com/IrineSistiana/mosproxy/internal/pool"
+	"github.com/prometheus/client_golang/prometheus"
+	"github.com/rs/zerolog"
+)
+
+// VerifCacheKey calls cacheKey and returns a private copy of the key (the pool buffer is released).
+func VerifCacheKey(name []byte, class, typ uint16, mark string) []byte {
+	q := dnsmsg.Question{Name: name, Class: dnsmsg.Class(class), Type: dnsmsg.Type(typ)}
+	k := cacheKey(&q, mark)
+	out := append([]byte(nil), k...)
+	pool.ReleaseBuf(k)
+	return out
+}
+
+// VerifMarker wraps an ipMarker loaded by loadIpMarkerFromReader.
+type VerifMarker struct{ m *ipMarker }
+
+func VerifLoadMarker(data []byte) (*VerifMarker, error) {
+	m, err := loadIpMarkerFromReader(bytes.NewReader(data))
+	if err != nil {
+		return nil, err
+	}
+	return &VerifMarker{m: m}, nil
+}
+
+func (m *VerifMarker) Mark(addr netip.Addr) string { return m.m.Mark(addr) }
+func (m *VerifMarker) IpLen() int                  { return m.m.IpLen() }
+func (m *VerifMarker) MarkLen() int                { return m.m.MarkLen() }
+
+// VerifCache is a cacheCtl built by the real initCache (memory backend only).
+type VerifCache struct{ c *cacheCtl }
+
+func VerifNewCache(memSize int, markerFile string) (*VerifCache, error) {
+	l := zerolog.Nop()
+	r := &router{logger: &l, metricsReg: prometheus.NewRegistry()}
+	c, err := r.initCache(&CacheConfig{MemSize: memSize, IpMarker: markerFile})
+	if err != nil {
+		return nil, err
+	}
+	return &VerifCache{c: c}, nil
+}
+
+func (c *VerifCache) Close()                      { c.c.Close() }
+func (c *VerifCache) Memory() *cache.MemoryCache   { return c.c.memory }
+func (c *VerifCache) IpMark(a netip.Addr) string   { return c.c.ipMark(a) }
+func (c *VerifCache) Store(q *dnsmsg.Question, client netip.Addr, resp *dnsmsg.Msg) {
+	c.c.Store(q, client, resp)
+}
+
+// Get returns the cached response (caller owns it) or nil.
+func (c *VerifCache) Get(q *dnsmsg.Question, client netip.Addr) *dnsmsg.Msg {
+	rc := getRequestContext()
+	rc.RemoteAddr = netip.AddrPortFrom(client, 53000)
+	m, _, _ := c.c.Get(context.Background(), q, rc)
+	releaseRequestContext(rc)
+	return m
+}
+
+func VerifPackCacheMsg(m *dnsmsg.Msg) ([]byte, error) {
+	b, err := packCacheMsg(m)
+	if err != nil {
+		return nil, err
+	}
+	out := append([]byte(nil), b...)
+	pool.ReleaseBuf(b)
+	return out, nil
+}
+
+func VerifUnpackCacheMsg(b []byte) (*dnsmsg.Msg, error) { return unpackCacheMsg(b) }
